@@ -7,9 +7,11 @@ import (
 	"bytes"
 	"context"
 	"encoding/base64"
+	"encoding/hex"
 	"encoding/json"
 	"flag"
 	"fmt"
+	"net/url"
 	"os"
 	"os/exec"
 	"strings"
@@ -77,7 +79,7 @@ func runBanner(args []string) error {
 	bin := fs.String("bin", "", "path of the built wonderwall binary")
 	masked := fs.Bool("uri-masked", false, "model flag: the banner masks the userinfo of redis.uri")
 	fs.Int64("seed", 1, "unused")
-	fs.String("tier", "quick", "quick|thorough")
+	tier := fs.String("tier", "quick", "quick|thorough")
 	fs.Parse(args)
 	if *bin == "" {
 		return fmt.Errorf("-bin required")
@@ -148,5 +150,242 @@ func runBanner(args []string) error {
 		}
 	}
 	fmt.Fprintf(os.Stderr, "banner: %d starts\n", count)
+	return bannerURISweep(*bin, *out+"-uri", *masked, *tier)
+}
+
+// ---- redis.uri: spellings of the embedded password ----
+
+// two distinctive halves; every password of the sweep is bannerT1 + <piece under test> + bannerT2
+const bannerT1, bannerT2 = "ur1pw9f3a", "b16b00b5"
+
+type bannerURICase struct {
+	name     string
+	uri      string
+	raw      string // the password as written in the URI ("" when the URI has none)
+	decoded  string // the password the Redis client authenticates with ("" when the spelling cannot be decoded)
+	userinfo bool   // by URI syntax the text is a userinfo password (false: observation only, see c18.py)
+}
+
+func bannerPw(piece string) (raw, decoded string) {
+	raw = bannerT1 + piece + bannerT2
+	// net/url's own decoder for a userinfo component (PathUnescape leaves '+' alone, as userinfo decoding does)
+	if d, err := url.PathUnescape(raw); err == nil {
+		decoded = d
+	}
+	return
+}
+
+func bannerURICases(tier string) []bannerURICase {
+	var out []bannerURICase
+	add := func(name, pre, piece, post string) {
+		raw, dec := bannerPw(piece)
+		out = append(out, bannerURICase{name: name, uri: pre + raw + post, raw: raw, decoded: dec, userinfo: true})
+	}
+	std := func(name, piece string) { add(name, "redis://someuser:", piece, "@127.0.0.1:1/0") }
+	std("alphanumeric", "")
+	for _, c := range "!$&'()*+,;=" { // RFC 3986 sub-delims, legal in userinfo as they are
+		std("sub-delimiter "+string(c), string(c))
+	}
+	std("all sub-delimiters", "!$&'()*+,;=")
+	std("unreserved marks", "-._~")
+	std("literal colon", ":")
+	std("literal colons", "::a:")
+	std("literal at sign", "@")
+	std("literal at sign and colon", "@x:y@")
+	for _, e := range []string{"%40", "%3A", "%3a", "%2F", "%2f", "%3F", "%3f", "%23", "%25"} { // @ : / ? # %
+		std("percent-encoded "+e, e)
+	}
+	std("percent-encoded reserved, upper case", "%40%3A%2F%3F%23%25")
+	std("percent-encoded reserved, lower case", "%40%3a%2f%3f%23%25")
+	std("percent-encoded sub-delimiters, upper case", "%21%24%26%27%28%29%2A%2B%2C%3B%3D")
+	std("percent-encoded sub-delimiters, lower case", "%21%24%26%27%28%29%2a%2b%2c%3b%3d")
+	for _, e := range []string{"%41", "%7A", "%7a", "%30", "%2D", "%2d", "%5F", "%5f", "%2E", "%2e", "%7E", "%7e"} {
+		std("unnecessarily encoded "+e, e)
+	}
+	std("every letter of a word encoded", "%70%61%73%73")
+	std("encoded space and quote", "%20%22")
+	std("encoded non-ASCII, upper case", "%C3%A6%C3%B8")
+	std("encoded non-ASCII, lower case", "%c3%a6%c3%b8")
+	std("encoded control characters", "%0A%00%7f")
+	std("encoded brackets and backslash", "%5B%5d%5C%7B%7d%3C%3e")
+	std("replacement text inside", "**REDACTED**")
+	// spellings url.Parse rejects (the whole value must go)
+	std("malformed escape %zz", "%zz")
+	std("escape completed by the next character (%4 + b)", "%4")
+	std("literal slash", "/")
+	std("literal question mark", "?")
+	std("literal hash", "#")
+	std("literal space", " ")
+	std("literal non-ASCII", "\u00e6")
+	std("literal brackets", "[x]")
+	// the rest of the URI
+	add("password only", "redis://:", "!%2f", "@127.0.0.1:1/0")
+	add("empty user name, IPv6 host", "rediss://:", "*", "@[::1]:6379/2")
+	add("IPv6 host", "redis://someuser:", "(%3a)", "@[2001:db8::1]:6379")
+	add("IPv6 host with zone", "redis://someuser:", "'", "@[fe80::1%25eth0]:6379/0")
+	add("query parameters", "redis://someuser:", "!*", "@127.0.0.1:1/3?dial_timeout=5s&client_name=a%2fb&pool_size=7")
+	add("query with an at sign and a colon", "redis://someuser:", "%2f", "@127.0.0.1:1/?x=a:b@c")
+	add("empty query", "redis://someuser:", "$", "@127.0.0.1:1/0?")
+	add("fragment", "redis://someuser:", "%2A", "@127.0.0.1:1/0#frag%2fment")
+	add("no path", "redis://someuser:", "(", "@redis.example.internal:6379")
+	add("no port", "redis://someuser:", ")", "@redis.example.internal/1")
+	add("path with encoded slash", "redis://someuser:", "%41", "@127.0.0.1:1/a%2Fb/c")
+	add("upper-case scheme", "REDIS://someuser:", "!", "@127.0.0.1:1/0")
+	add("rediss", "rediss://someuser:", "%3a", "@127.0.0.1:1/0")
+	add("unix socket", "unix://someuser:", "*%2f", "@/var/run/redis.sock?db=1")
+	add("user name with encoded at sign", "redis://some%40user:", "'", "@127.0.0.1:1/0")
+	add("user name with sub-delimiters", "redis://some!user*:", "%2f", "@127.0.0.1:1/0")
+	add("user name unnecessarily encoded", "redis://%73omeuser:", "%2F", "@127.0.0.1:1/0")
+	add("no scheme", "//someuser:", "!", "@127.0.0.1:1/0")
+	add("invalid port", "redis://someuser:", "*", "@127.0.0.1:port/0")
+	add("host with a space", "redis://someuser:", "*", "@127.0.0.1 :1/0")
+	// the empty password, and values without a password
+	out = append(out,
+		bannerURICase{name: "empty password", uri: "redis://someuser:@127.0.0.1:1/0", userinfo: true},
+		bannerURICase{name: "empty user and password", uri: "redis://:@127.0.0.1:1/0", userinfo: true},
+		bannerURICase{name: "user only", uri: "redis://someuser@127.0.0.1:1/0", userinfo: true},
+		bannerURICase{name: "user only, sub-delimiters", uri: "redis://some!user*@127.0.0.1:1/0", userinfo: true},
+		bannerURICase{name: "no userinfo", uri: "redis://127.0.0.1:1/0", userinfo: true},
+		bannerURICase{name: "no userinfo, IPv6 host, query", uri: "redis://[::1]:6379/0?read_timeout=3s", userinfo: true},
+		bannerURICase{name: "empty userinfo", uri: "redis://@127.0.0.1:1/0", userinfo: true},
+		bannerURICase{name: "empty value", uri: "", userinfo: true},
+	)
+	// text that LOOKS like user:password@host but is no userinfo by URI syntax (no "//": an opaque URI; digits before a literal
+	// slash: host:port followed by a path). net/url and the Redis client see no password there. Observed, compared with the model,
+	// listed by c18.py, not judged.
+	{
+		raw, dec := bannerPw("!")
+		out = append(out, bannerURICase{name: "opaque (no //)", uri: "redis:someuser:" + raw + "@127.0.0.1:1/0", raw: raw, decoded: dec})
+		out = append(out, bannerURICase{name: "digits, literal slash", uri: "redis://someuser:4711/" + raw + "@127.0.0.1:1/0", raw: raw, decoded: dec})
+	}
+	// exhaustive: every sequence of one and two (thorough: three) pieces of a small alphabet
+	pieces := []string{"a", "!", "*", "(", "'", "$", ":", "@", "%2f", "%2F", "%41", "%25"}
+	var seqs [][]string
+	for _, a := range pieces {
+		seqs = append(seqs, []string{a})
+		for _, b := range pieces {
+			seqs = append(seqs, []string{a, b})
+			if tier == "thorough" {
+				for _, c := range pieces {
+					seqs = append(seqs, []string{a, b, c})
+				}
+			}
+		}
+	}
+	for _, q := range seqs {
+		std("pieces "+strings.Join(q, " "), strings.Join(q, ""))
+	}
+	return out
+}
+
+// bannerHaystack: the raw output plus every string value of every JSON log line (the JSON encoder writes & < > and
+// control characters as \u00XX)
+func bannerHaystack(outp string) (hay string, configMsg string) {
+	var sb strings.Builder
+	sb.WriteString(outp)
+	for _, line := range strings.Split(outp, "\n") {
+		var m map[string]any
+		if json.Unmarshal([]byte(line), &m) != nil {
+			continue
+		}
+		for _, v := range m {
+			if sv, ok := v.(string); ok {
+				sb.WriteByte('\n')
+				sb.WriteString(sv)
+				if strings.HasPrefix(sv, "config: {") {
+					configMsg = sv
+				}
+			}
+		}
+	}
+	return sb.String(), configMsg
+}
+
+// bannerURIField: the value printed for Redis.URI in the banner's %+v rendering
+func bannerURIField(msg string) (string, bool) {
+	r := strings.Index(msg, " Redis:{Address:")
+	if r < 0 {
+		return "", false
+	}
+	i := strings.Index(msg[r:], " URI:")
+	j := strings.LastIndex(msg, " ConnectionIdleTimeout:")
+	if i < 0 || j < r+i+5 {
+		return "", false
+	}
+	return msg[r+i+5 : j], true
+}
+
+func bannerHex(s string) string {
+	if s == "" {
+		return "-"
+	}
+	return hex.EncodeToString([]byte(s))
+}
+
+func bannerURISweep(bin, out string, masked bool, tier string) error {
+	fin, err := os.Create(out + ".in")
+	if err != nil {
+		return err
+	}
+	defer fin.Close()
+	fimpl, _ := os.Create(out + ".impl")
+	defer fimpl.Close()
+	fobs, _ := os.Create(out + ".obs")
+	defer fobs.Close()
+	win, wimpl, wobs := bufio.NewWriter(fin), bufio.NewWriter(fimpl), bufio.NewWriter(fobs)
+	defer win.Flush()
+	defer wimpl.Flush()
+	defer wobs.Flush()
+	cases := bannerURICases(tier)
+	count := 0
+	for ci, c := range cases {
+		// the named spellings through both channels; the exhaustive ones alternate
+		channels := []int{0, 1}
+		if strings.HasPrefix(c.name, "pieces ") {
+			channels = []int{ci % 2}
+		}
+		for _, channel := range channels {
+			args := []string{"--log-level=debug"}
+			var env []string
+			if channel == 0 {
+				args = append(args, "--redis.uri="+c.uri)
+			} else {
+				env = append(env, "WONDERWALL_REDIS_URI="+c.uri)
+			}
+			ctx, cancel := context.WithTimeout(context.Background(), 20*time.Second)
+			cmd := exec.CommandContext(ctx, bin, args...)
+			cmd.Env = append([]string{"PATH=" + os.Getenv("PATH"), "HOME=" + os.Getenv("HOME")}, env...)
+			var buf bytes.Buffer
+			cmd.Stdout = &buf
+			cmd.Stderr = &buf
+			cmd.Run()
+			cancel()
+			hay, msg := bannerHaystack(buf.String())
+			field, ok := bannerURIField(msg)
+			// the password in every form: as written, decoded, and each distinctive half
+			var found []string
+			if c.raw != "" {
+				forms := [][2]string{{"as written in the URI", c.raw}, {"decoded", c.decoded}, {"first half", bannerT1}, {"second half", bannerT2}}
+				for _, f := range forms {
+					if f[1] != "" && strings.Contains(hay, f[1]) {
+						found = append(found, f[0])
+					}
+				}
+			}
+			fmt.Fprintf(win, "banneruri %d %s\n", bi(masked), bannerHex(c.uri))
+			if ok {
+				fmt.Fprintln(wimpl, bannerHex(field))
+			} else {
+				fmt.Fprintln(wimpl, "?no-banner")
+			}
+			ob, _ := json.Marshal(map[string]any{"spelling": c.name, "redis_uri": c.uri, "password_as_written": c.raw, "password_decoded": c.decoded,
+				"channel": []string{"flag", "WONDERWALL_ env"}[channel], "userinfo_by_syntax": c.userinfo, "banner_seen": ok, "printed_uri_field": field,
+				"found": found, "output_bytes": buf.Len()})
+			wobs.Write(ob)
+			wobs.WriteByte('\n')
+			count++
+		}
+	}
+	fmt.Fprintf(os.Stderr, "banner: %d starts with spellings of redis.uri\n", count)
 	return nil
 }
